@@ -165,6 +165,8 @@ func runCase(stream string, w *World) result {
 	var cycTerms, cycDesc []string
 	var prevPipes []string
 	notHonoured := false
+	rebound := false
+	var prevEvs [][2]string
 	gateRefused := false
 	jobQueue, podJob := map[string]string{}, map[string]string{}
 	for _, j := range w.Jobs {
@@ -244,6 +246,30 @@ func runCase(stream string, w *World) result {
 				prevPipes = append(prevPipes, cl.Pod)
 			}
 		}
+		// simulation/allocate order: a pod evicted in the previous cycle is bound again by this cycle's allocate
+		// although the pod it was evicted for is not bound before it (Run/C15.v order_consistent)
+		bindIx := map[string]int{}
+		for i, cl := range rec.Calls {
+			if cl.Kind == "bind" {
+				bindIx[cl.Pod] = i + 1
+			}
+		}
+		for _, ev := range prevEvs {
+			if vi := bindIx[ev[1]]; vi > 0 {
+				if ji := bindIx[ev[0]]; ji == 0 || ji > vi {
+					res.stats[stream+":victim-rebound-before-its-reclaimer"]++
+					rebound = true
+				}
+			}
+		}
+		prevEvs = nil
+		for _, cl := range rec.Calls {
+			if cl.Kind == "evict" && (cl.Action == "reclaim" || cl.Action == "preempt") {
+				if fp, ok := firstPod[cl.Preemptor]; ok {
+					prevEvs = append(prevEvs, [2]string{fp, cl.Pod})
+				}
+			}
+		}
 		for _, cl := range rec.Calls {
 			res.stats["call:"+cl.Kind+":"+cl.Action]++
 			switch cl.Kind {
@@ -281,6 +307,9 @@ func runCase(stream string, w *World) result {
 	streamCode := 0
 	if stream != "class" {
 		streamCode = 1
+		if stream == "hier" {
+			streamCode = 2
+		}
 		if i := strings.Index(stream, "("); i > 0 {
 			outside, stream = stream[i:], stream[:i]
 		}
@@ -293,11 +322,17 @@ func runCase(stream string, w *World) result {
 		res.lasso = true
 		res.dump = Describe(w0) + "\n" + tr.Dump()
 	}
+	if tr.LassoFrom >= 0 {
+		lasso += lassoTags(w0, tr)
+	}
 	if notHonoured {
 		lasso += " SLOT-NOT-HONOURED"
 	}
 	if gateRefused {
 		lasso += " REAL-GATE-REFUSES-ACTUAL-VICTIMS"
+	}
+	if rebound {
+		lasso += " VICTIM-REBOUND-BEFORE-ITS-RECLAIMER"
 	}
 	res.label = fmt.Sprintf("stream=%s%s %s state0{%s} =>%s  %s", stream, outside, Describe(w0), tr.Cycles[0].Before, lasso, strings.Join(cycDesc, "  |  "))
 	res.stats[fmt.Sprintf("%s:cycles=%d", stream, len(tr.Cycles))]++
@@ -313,10 +348,81 @@ func runCase(stream string, w *World) result {
 	return res
 }
 
-// RunAll generates n worlds (2/3 class stream, 1/3 general stream) after the fixed corpus,
-// runs them concurrently and writes the cases.
-func RunAll(dir string, seed uint64, n int, tier string) error {
+// lassoTags describes HOW a lasso came about, from what is observable without hooks:
+//   SIM-REPLACED-OWN-DEPT  an eviction inside the loop was committed from a solver statement that had evicted and
+//                          re-placed ("unevicted") a pod of the reclaimer's OWN department (simTrack)
+//   SIM-REPLACED           ... re-placed some other pod
+//   UNSTABLE(k/10)         the same world, run 10 times from its initial state, does not always take the same decisions
+//                          (they depend on Go map iteration order inside the scheduler); k of the 10 runs end in a lasso
+func lassoTags(w0 *World, tr *Trace) string {
+	jobQueue, podJob, queueDept := map[string]string{}, map[string]string{}, map[string]string{}
+	for _, q := range w0.Queues {
+		queueDept[q.Name] = q.Parent
+	}
+	for _, j := range w0.Jobs {
+		jobQueue[j.Name] = j.Queue
+		for _, p := range j.Pods {
+			podJob[p.Name] = j.Name
+		}
+	}
+	own, other := false, false
+	for c := tr.LassoFrom; c <= tr.LassoTo && c < len(tr.Cycles); c++ {
+		for _, cl := range tr.Cycles[c].Calls {
+			if cl.Kind != "evict" {
+				continue
+			}
+			for _, rp := range cl.Replaced {
+				if queueDept[jobQueue[podJob[rp]]] == queueDept[jobQueue[cl.Preemptor]] {
+					own = true
+				} else {
+					other = true
+				}
+			}
+		}
+	}
+	tags := ""
+	if own {
+		tags += " SIM-REPLACED-OWN-DEPT"
+	} else if other {
+		tags += " SIM-REPLACED"
+	}
+	// the same world again, 9 times: any run whose decisions differ from this one makes the world UNSTABLE
+	sig := func(t *Trace) string {
+		// per cycle the SET of (decision, pod): neither the order of the evictions of one scenario nor the node
+		// chosen counts as a difference
+		var d []string
+		for _, c := range t.Cycles {
+			var e []string
+			for _, cl := range c.Calls {
+				e = append(e, cl.Kind+":"+cl.Pod)
+			}
+			sort.Strings(e)
+			d = append(d, strings.Join(e, ","))
+		}
+		return strings.Join(d, "|")
+	}
+	ref, k, differs := sig(tr), 1, false
+	for i := 0; i < 9; i++ {
+		t := Run(w0.Clone(), maxCycles)
+		if t.LassoFrom >= 0 {
+			k++
+		}
+		if sig(t) != ref {
+			differs = true
+		}
+	}
+	if differs || k < 10 {
+		tags += fmt.Sprintf(" UNSTABLE(%d/10)", k)
+	}
+	return tags
+}
+
+// RunAll runs the fixed corpus (flat worlds, hierarchical worlds, the enumerated hierarchical family), then n
+// generated worlds (1/2 class stream, 1/2 general stream) and hierN random hierarchical worlds, concurrently, and
+// writes the cases.
+func RunAll(dir string, seed uint64, n int, tier string, hierN int) error {
 	out := u.NewOut(dir, "C15", "KaiV.Run.C15", "case", 25)
+	out.Flags = true
 	type job struct {
 		stream string
 		w      *World
@@ -326,9 +432,29 @@ func RunAll(dir string, seed uint64, n int, tier string) error {
 		w := scenario(name)
 		jobs = append(jobs, job{corpusStream[name], w})
 	}
+	for _, name := range hierCorpus {
+		jobs = append(jobs, job{"hier", scenario(name)})
+	}
+	// the enumerated neighbourhood of the seeded/C15-2 world (deterministic)
+	for _, w := range hierFamily() {
+		jobs = append(jobs, job{"hier", w})
+	}
 	for i := 0; i < n; i++ {
 		st, w := GenCase(seed, i)
 		jobs = append(jobs, job{st, w})
+	}
+	// random hierarchical worlds, appended (the index mapping of GenCase stays as it was); -probe hier:<seed>:<k>.
+	// Default: thorough tier n/5, quick tier none - on the unchanged tree about 0.4% of them end in a lasso
+	// (tags SIM-REPLACED* / UNSTABLE, proposed findings of .work/C15-known.json), some of them only in some runs,
+	// so they cannot be part of a check that has to be quiet and reproducible before those findings are listed.
+	if hierN < 0 {
+		hierN = 0
+		if tier == "thorough" {
+			hierN = n / 5
+		}
+	}
+	for k := 0; k < hierN; k++ {
+		jobs = append(jobs, job{"hier", GenHier(u.NewRng(seed ^ hierSalt).Fork(uint64(k)))})
 	}
 	results := make([]result, len(jobs))
 	var wg sync.WaitGroup
@@ -356,7 +482,7 @@ func RunAll(dir string, seed uint64, n int, tier string) error {
 			fmt.Fprintf(os.Stderr, "LASSO on the real scheduler:\n%s\n", r.dump)
 		}
 	}
-	out.Stats["rule"] = "EXPLORATION: bounded closed-system runs (<= 12 cycles) of the real actions (allocate, consolidation, reclaim, preempt[, stalegangeviction]) on generated worlds (<= 4 nodes, <= 3 queues under 1-2 departments, <= 8 jobs), with AllowConsolidatingReclaim, MaxNumberConsolidationPreemptees and the proportion plugin's relcaimerSaturationMultiplier varied; stream 'class' = single-pod 1-GPU preemptible jobs, no limits (class of theorem C15_rank_decreases, refinement-checked against Model/ClosedSystem.v); stream 'general' = gangs, fractional pods, CPU as second resource, limits, non-preemptible jobs (monitor only). Non-trivial = the run contains at least one evicting cycle; distinct by world and decisions."
+	out.Stats["rule"] = "EXPLORATION: bounded closed-system runs (<= 12 cycles; an evicted pod is pending again, a pipelined (nominated) pod is simply pending again in the next cycle, a bind completes; lasso = a canonical world state seen before with an eviction in between) of the real actions (allocate, consolidation, reclaim, preempt[, stalegangeviction]) with AllowConsolidatingReclaim, MaxNumberConsolidationPreemptees and the proportion plugin's relcaimerSaturationMultiplier varied. World shapes: (1) fixed corpus, run first: 13 flat / two-level worlds (gate ping-pong, equal-priority preemption, the minimal worlds of the known findings) + 6 hierarchical worlds (the world of seeded/C15-2/README.md: two departments, the reclaimer's department with two leaf queues, a 3-GPU pending job of the sibling queue first in the department next to a 1-GPU job entitled to reclaim; variations: no big job, big job in the victim's department, three departments, big job schedulable, department limit instead of quota) + 360 enumerated hierarchical worlds (hierFamily: position / size of the big job x own running job x how it gets in front x overshoot of the victim's department x {plain, department limit, three departments, 2-GPU reclaimer, no consolidating reclaim}); (2) n generated worlds: stream 'class' (1/2: <= 4 nodes, 2-4 leaf queues under 1-2 departments, <= 8 single-pod 1-GPU preemptible jobs, no limits: the class of theorem C15_rank_decreases, refinement-checked against Model/ClosedSystem.v incl. order consistency), stream 'general' (1/4: gangs, fractional pods, CPU as second resource, limits, non-preemptible jobs; 1/4 class-shaped with queue priorities / over-subscribed quotas; monitor only); (3) stream 'hier' random worlds (GenHier: 1-2 nodes of 4-8 GPUs, 2-3 departments with quota and sometimes limit and priority, 1-3 leaf queues each with quotas that may over-subscribe the department, limits, over-quota weights 0-3, queue priorities, 4-12 single-pod jobs of 1-4 GPUs with varied priorities / creation times, half of them built around a big pending job of a sibling leaf queue): thorough tier n/5, quick tier none (flag -hier K). Lassos on the unchanged tree: corpus and enumerated hierarchical worlds 0 of 366; random hierarchical worlds 27 of 6000 (18 with tag SIM-REPLACED*: the committed scenario had evicted and re-placed other pods; 9 + 1 of those UNSTABLE: the decisions of the same world differ from run to run, they depend on Go map iteration order) - proposed findings, see checks.d; general stream about 8 per 1500 (known finding). Lasso tags are computed from what is observable without hooks (framework.EventHandler on the session's statements, re-running the world 10 times). Non-trivial = the run contains at least one evicting cycle; distinct by world and decisions."
 	return out.Flush()
 }
 
@@ -376,5 +502,5 @@ func workers() int {
 			return k
 		}
 	}
-	return 12
+	return 48 // a cycle spends most of its wall time waiting (fake informers), not computing
 }
